@@ -20,7 +20,7 @@ Opts(t) == { <<>>,
 SmallScripts == {s \in [MinTTL..MaxTTL -> UNION {Opts(t) : t \in MinTTL..MaxTTL}] : \A t \in MinTTL..MaxTTL : s[t] \in Opts(t)}
 
 \* scripts with faults and foreign-TTL credit (smaller product: only on the first two TTLs)
-FaultOpts(t) == { <<E("fatal", 2)>>, <<E("nil", 2)>>, <<E("sendfail", 0)>>, <<R(0, FALSE, 1, 9)>>, <<R(MaxTTL + 1, TRUE, 1, 9)>>,
+FaultOpts(t) == { <<E("fatal", 2)>>, <<E("nil", 2)>>, <<E("sendfail", 0)>>, <<R(MinTTL - 1, FALSE, 1, 9)>>, <<R(MinTTL - 1, TRUE, 1, 9)>>, <<R(1, TRUE, 1, 9)>>, <<R(MaxTTL + 1, TRUE, 1, 9)>>,
                   <<R(MaxTTL, TRUE, 1, 100)>>, <<R(MinTTL, FALSE, 3, 60)>>, <<E("nopkt", 1), E("bad", 1)>> }
 FaultScripts == {s \in [MinTTL..MaxTTL -> UNION {Opts(t) \cup FaultOpts(t) : t \in MinTTL..MaxTTL}] :
                     /\ \A t \in MinTTL..MaxTTL : s[t] \in Opts(t) \cup FaultOpts(t)
